@@ -15,6 +15,10 @@ def run(ck):
     if okh and V.build_model("core")[0] and not ck.replay:
         ck.correspondence("hx-actor", "actor", "hx-ec", extra_args=["focus=c05"], name="actor-exchange",
                           nontrivial=lambda c, r: "D:1:" in c or "S:1:" in c)
+        # the poller's own exchange code (get_state, diff, handle_removals, fetch + handle_modified) between
+        # real nodes whose operations span several forgiveness periods: cut-offs move, sources matter
+        ck.correspondence("hx-cluster", "cluster", "hx-ec", extra_args=["focus=c05"], name="cluster-exchange",
+                          nontrivial=lambda c, r: " X:" in c or " XR:" in c or " XM:" in c)
     run_orswot_check(
         ck, "Properties/C05.v", "c05", nontrivial,
         rule="cases = pairs of replicas (OrSWotSet<2>) built from one history of <= 3 (4) distinct-stamp operations over 3 keys, "
